@@ -1,48 +1,681 @@
+// C14: valid Go files parse to the same syntax tree as with go/parser.
+// Mode E: (1) every .go file of the repository that go/parser accepts, (2) a menu of self-contained,
+// type-checked Go declarations/statements, every one alone, every ordered pair in one function body, and
+// for the singles every whitespace variant (newline after each token that does not end a line in Go,
+// one blank inserted / removed at every token boundary) that go/parser maps to the identical go/ast tree.
+// Oracle: go/parser + go/types (premise) and a reflection comparison of the XGo tree with the go/ast tree.
 package main
 
 import (
 	"fmt"
 	goast "go/ast"
+	"go/importer"
+	goparser "go/parser"
+	goscanner "go/scanner"
+	gotoken "go/token"
+	"go/types"
+	"os"
 	"reflect"
+	"regexp"
+	"strconv"
+	"strings"
 
-	"github.com/goplus/xgo/ast"
+	"github.com/goplus/xgo/parser"
+	"github.com/goplus/xgo/token"
+	"verif/corpus"
+	"verif/engine"
 )
 
+type Case struct {
+	Src     string `json:"src,omitempty"`
+	File    string `json:"file,omitempty"`    // repository file (Src is read from it)
+	Feat    string `json:"feat,omitempty"`    // menu feature(s)
+	Variant string `json:"variant,omitempty"` // whitespace variant class
+}
+
+// ---------------------------------------------------------------------------------------------
+// tree comparison (x: XGo tree or go/ast tree, g: go/ast tree)
+
+const xgoAst = "github.com/goplus/xgo/ast"
+
+var ignoreField = map[string]bool{"Obj": true, "Scope": true, "Unresolved": true, "Comments": true, "Doc": true, "Comment": true,
+	"Imports": true, "FileStart": true, "FileEnd": true, "GoVersion": true}
+
+// positions whose validity is syntax
+var posIsSyntax = map[string]bool{"CallExpr.Ellipsis": true, "TypeSpec.Assign": true, "GenDecl.Lparen": true}
+
+// XGo-only fields that may be set on a tree parsed from Go source
+var xgoOnlyAllowed = map[string]bool{"BasicLit.Extra": true, "File.Code": true, "File.ShadowEntry": true, "File.NoPkgDecl": true,
+	"File.IsClass": true, "File.IsProj": true, "File.IsNormalGox": true, "FuncDecl.Operator": true, "FuncDecl.Shadow": true,
+	"FuncDecl.IsClass": true, "FuncDecl.Static": true}
+
+var goPosType = reflect.TypeOf(gotoken.NoPos)
+var xPosType = reflect.TypeOf(token.NoPos)
+
+type diff struct {
+	At     string // <GoNodeType>.<Field>
+	Path   string
+	Detail string
+	Kinds  string // "(GoType/XGoType)" when the difference is the node type
+}
+
+func typeName(v reflect.Value) string {
+	for v.IsValid() && v.Kind() == reflect.Interface && !v.IsNil() {
+		v = v.Elem()
+	}
+	if v.IsValid() && v.Kind() == reflect.Ptr && !v.IsNil() {
+		return v.Type().Elem().Name()
+	}
+	return "nil"
+}
+
+func isNilable(v reflect.Value) bool {
+	switch v.Kind() {
+	case reflect.Ptr, reflect.Interface, reflect.Slice, reflect.Map:
+		return true
+	}
+	return false
+}
+
+func describe(v reflect.Value) string {
+	if !v.IsValid() {
+		return "<none>"
+	}
+	for v.Kind() == reflect.Interface {
+		if v.IsNil() {
+			return "nil"
+		}
+		v = v.Elem()
+	}
+	if v.Kind() == reflect.Ptr {
+		if v.IsNil() {
+			return "nil"
+		}
+		s := "*" + v.Type().Elem().Name()
+		e := v.Elem()
+		if e.Kind() == reflect.Struct {
+			if f := e.FieldByName("Name"); f.IsValid() && f.Kind() == reflect.String {
+				s += "(" + f.String() + ")"
+			} else if f := e.FieldByName("Value"); f.IsValid() && f.Kind() == reflect.String {
+				s += "(" + f.String() + ")"
+			} else if f := e.FieldByName("Op"); f.IsValid() {
+				s += fmt.Sprintf("(%v)", f.Interface())
+			} else if f := e.FieldByName("Tok"); f.IsValid() && f.Kind() != reflect.Struct {
+				s += fmt.Sprintf("(%v)", f.Interface())
+			}
+		}
+		return s
+	}
+	return fmt.Sprintf("%v", v.Interface())
+}
+
+func cmp(x, g reflect.Value, at, path string, depth int) *diff {
+	if depth > 2000 {
+		return &diff{at, path, "too deep", ""}
+	}
+	for g.Kind() == reflect.Interface {
+		if g.IsNil() {
+			for x.IsValid() && x.Kind() == reflect.Interface && !x.IsNil() {
+				x = x.Elem()
+			}
+			if x.IsValid() && isNilable(x) && !x.IsNil() {
+				return &diff{at, path, "go/parser: nil, XGo parser: " + describe(x), ""}
+			}
+			return nil
+		}
+		g = g.Elem()
+	}
+	for x.Kind() == reflect.Interface {
+		if x.IsNil() {
+			return &diff{at, path, "go/parser: " + describe(g) + ", XGo parser: nil", ""}
+		}
+		x = x.Elem()
+	}
+	switch g.Kind() {
+	case reflect.Ptr:
+		if x.Kind() != reflect.Ptr {
+			return &diff{at, path, "go/parser: " + describe(g) + ", XGo parser: " + describe(x), ""}
+		}
+		if g.IsNil() || x.IsNil() {
+			if g.IsNil() != x.IsNil() {
+				return &diff{at, path, "go/parser: " + describe(g) + ", XGo parser: " + describe(x), ""}
+			}
+			return nil
+		}
+		gn, xn := g.Type().Elem().Name(), x.Type().Elem().Name()
+		if gn != xn {
+			return &diff{at, path, "go/parser: " + describe(g) + ", XGo parser: " + describe(x), "(" + gn + "/" + xn + ")"}
+		}
+		return cmp(x.Elem(), g.Elem(), at, path+"/"+gn, depth+1)
+	case reflect.Struct:
+		gt, xt := g.Type(), x.Type()
+		if x.Kind() != reflect.Struct {
+			return &diff{at, path, "kind mismatch", ""}
+		}
+		for i := 0; i < gt.NumField(); i++ {
+			f := gt.Field(i)
+			if !f.IsExported() || ignoreField[f.Name] {
+				continue
+			}
+			fat := gt.Name() + "." + f.Name
+			if f.Type == goPosType {
+				if posIsSyntax[fat] {
+					xf := x.FieldByName(f.Name)
+					if !xf.IsValid() {
+						return &diff{fat, path, "XGo node has no such field", ""}
+					}
+					if gv, xv := g.Field(i).Int() != 0, xf.Int() != 0; gv != xv {
+						return &diff{fat, path + "." + f.Name, fmt.Sprintf("position validity: go/parser %v, XGo parser %v", gv, xv), ""}
+					}
+				}
+				continue
+			}
+			if gt.Name() == "SendStmt" && f.Name == "Value" && xt.PkgPath() == xgoAst {
+				vs := x.FieldByName("Values")
+				if vs.Len() != 1 {
+					return &diff{fat, path + ".Values", fmt.Sprintf("send statement with %d values", vs.Len()), ""}
+				}
+				if d := cmp(vs.Index(0), g.Field(i), fat, path+".Values[0]", depth+1); d != nil {
+					return d
+				}
+				continue
+			}
+			xf := x.FieldByName(f.Name)
+			if !xf.IsValid() {
+				return &diff{fat, path, "XGo node has no such field", ""}
+			}
+			if d := cmp(xf, g.Field(i), fat, path+"."+f.Name, depth+1); d != nil {
+				return d
+			}
+		}
+		if xt.PkgPath() == xgoAst {
+			for i := 0; i < xt.NumField(); i++ {
+				f := xt.Field(i)
+				if _, ok := gt.FieldByName(f.Name); ok || !f.IsExported() {
+					continue
+				}
+				fat := xt.Name() + "." + f.Name
+				if xgoOnlyAllowed[fat] || fat == "SendStmt.Values" {
+					continue
+				}
+				if !x.Field(i).IsZero() {
+					return &diff{fat, path + "." + f.Name, "XGo-only field is set on a tree parsed from Go source: " + describe(x.Field(i)), ""}
+				}
+			}
+		}
+		return nil
+	case reflect.Slice:
+		if x.Kind() != reflect.Slice {
+			return &diff{at, path, "kind mismatch", ""}
+		}
+		n := g.Len()
+		if x.Len() < n {
+			n = x.Len()
+		}
+		for i := 0; i < n; i++ {
+			if d := cmp(x.Index(i), g.Index(i), at, fmt.Sprintf("%s[%d]", path, i), depth+1); d != nil {
+				return d
+			}
+		}
+		if g.Len() != x.Len() {
+			return &diff{at, path, fmt.Sprintf("length: go/parser %d, XGo parser %d", g.Len(), x.Len()), ""}
+		}
+		return nil
+	case reflect.String:
+		if x.Kind() != reflect.String || x.String() != g.String() {
+			return &diff{at, path, fmt.Sprintf("go/parser %q, XGo parser %q", g.String(), describe(x)), ""}
+		}
+	case reflect.Bool:
+		if x.Kind() != reflect.Bool || x.Bool() != g.Bool() {
+			return &diff{at, path, fmt.Sprintf("go/parser %v, XGo parser %v", g.Bool(), describe(x)), ""}
+		}
+	case reflect.Int, reflect.Int8, reflect.Int16, reflect.Int32, reflect.Int64:
+		if g.Type().Name() == "Token" {
+			gs, xs := fmt.Sprint(g.Interface()), fmt.Sprint(x.Interface())
+			if gs != xs {
+				return &diff{at, path, fmt.Sprintf("token: go/parser %s, XGo parser %s", gs, xs), ""}
+			}
+			return nil
+		}
+		if !x.CanInt() || x.Int() != g.Int() {
+			return &diff{at, path, fmt.Sprintf("go/parser %d, XGo parser %s", g.Int(), describe(x)), ""}
+		}
+	case reflect.Map:
+		// none reachable outside ignored fields
+	}
+	return nil
+}
+
+// ---------------------------------------------------------------------------------------------
+
+var reErrPos = regexp.MustCompile(`^[^ ]*:\d+:\d+: `)
+
+func normErr(err error) string {
+	s := err.Error()
+	if i := strings.Index(s, " (and "); i >= 0 {
+		s = s[:i]
+	}
+	s = reErrPos.ReplaceAllString(s, "")
+	return s
+}
+
+// hasDollarString reports whether a string literal of src contains '$' (documented deviation: interpolation).
+func hasDollarString(src []byte) bool {
+	if !strings.Contains(string(src), "$") {
+		return false
+	}
+	var s goscanner.Scanner
+	fs := gotoken.NewFileSet()
+	s.Init(fs.AddFile("", -1, len(src)), src, nil, 0)
+	for {
+		_, tok, lit := s.Scan()
+		if tok == gotoken.EOF {
+			return false
+		}
+		if tok == gotoken.STRING && strings.Contains(lit, "$") {
+			return true
+		}
+	}
+}
+
+func parseGo(src []byte) (*goast.File, *gotoken.FileSet, error) {
+	fs := gotoken.NewFileSet()
+	f, err := goparser.ParseFile(fs, "a.go", src, goparser.ParseComments|goparser.SkipObjectResolution)
+	return f, fs, err
+}
+
+// judge compares the XGo parser's result for src with the go/parser tree gf. prefix builds the keys.
+func judge(src []byte, gf *goast.File, k Case) *engine.Failure {
+	rejectKey, wsKey := "rejects:"+k.Feat, ""
+	if k.Variant != "" {
+		// the defect of a whitespace variant is the whitespace sensitivity at that token, whatever its symptom
+		wsKey = "ws:" + k.Variant
+		rejectKey = wsKey
+	}
+	for _, ep := range []struct {
+		name string
+		mode parser.Mode
+	}{{"a.go", parser.ParseGoAsGoPlus | parser.ParseComments}, {"a.xgo", parser.ParseComments}, {"a.xgo", 0}} {
+		var fail *engine.Failure
+		g := engine.Guard(func() {
+			xf, err := parser.ParseFile(token.NewFileSet(), ep.name, src, ep.mode)
+			if err != nil {
+				key := rejectKey
+				if k.File != "" {
+					key = corpusKey(src, err)
+				}
+				fail = &engine.Failure{Key: key, What: "the XGo parser rejects a Go file that go/parser accepts",
+					Detail: fmt.Sprintf("parsed as %s mode %#x: %v\n%s", ep.name, uint(ep.mode), err, excerpt(src, err))}
+				return
+			}
+			if d := cmp(reflect.ValueOf(xf), reflect.ValueOf(gf), "File", "", 0); d != nil {
+				key := "tree:" + d.At + d.Kinds
+				if wsKey != "" {
+					key = wsKey
+				}
+				fail = &engine.Failure{Key: key, What: "the XGo parser builds a different tree than go/parser",
+					Detail: fmt.Sprintf("parsed as %s mode %#x: at %s: %s\n%s", ep.name, uint(ep.mode), d.Path, d.Detail, srcOf(k, src))}
+			}
+		})
+		if g != nil {
+			g.Detail = srcOf(k, src) + "\n" + g.Detail
+			return g
+		}
+		if fail != nil {
+			return fail
+		}
+	}
+	return nil
+}
+
+func srcOf(k Case, src []byte) string {
+	if k.File != "" {
+		return "file " + k.File
+	}
+	return "source:\n" + string(src)
+}
+
+var reGenFunc = regexp.MustCompile(`^func\s*(\([^)]*\)\s*)?\w+\[`)
+var reGenType = regexp.MustCompile(`^\s*(type\s+)?\w+\[[^\]]+\s[^\]]+\]`)
+
+// corpusKey maps the first error on a repository file to the construct (= defect) that the menu isolates;
+// anything unrecognised is keyed by the normalised message.
+func corpusKey(src []byte, err error) string {
+	msg := normErr(err)
+	line := ""
+	if m := reLine.FindStringSubmatch(err.Error()); m != nil {
+		n, _ := strconv.Atoi(m[1])
+		if lines := strings.Split(string(src), "\n"); n >= 1 && n <= len(lines) {
+			line = lines[n-1]
+		}
+	}
+	switch {
+	case msg == "expected '(', found '['" && reGenFunc.MatchString(line):
+		return "rejects:generic-func-decl"
+	case strings.HasPrefix(msg, "expected ']', found") && reGenType.MatchString(line):
+		return "rejects:generic-type-decl"
+	case strings.HasSuffix(msg, "found '|'") && strings.Contains(line, "|"):
+		return "rejects:constraint-union"
+	case strings.HasSuffix(msg, "found '~'") && strings.Contains(line, "~"):
+		return "rejects:constraint-tilde"
+	}
+	return "rejects:corpus:" + msg
+}
+
+var reLine = regexp.MustCompile(`:(\d+):\d+: `)
+
+func excerpt(src []byte, err error) string {
+	m := reLine.FindStringSubmatch(err.Error())
+	if m == nil {
+		return ""
+	}
+	n, _ := strconv.Atoi(m[1])
+	lines := strings.Split(string(src), "\n")
+	lo, hi := n-2, n+1
+	if lo < 0 {
+		lo = 0
+	}
+	if hi > len(lines) {
+		hi = len(lines)
+	}
+	return "near:\n" + strings.Join(lines[lo:hi], "\n")
+}
+
+var imp types.Importer
+var impFset = gotoken.NewFileSet()
+
+func typeCheck(gf *goast.File, fs *gotoken.FileSet) error {
+	if imp == nil {
+		imp = importer.ForCompiler(impFset, "source", nil)
+	}
+	var first error
+	conf := types.Config{Importer: imp, Error: func(err error) {
+		if first == nil {
+			first = err
+		}
+	}}
+	conf.Check("p", fs, []*goast.File{gf}, nil)
+	return first
+}
+
+// eval: the complete judgement of one case (used by replay as well). premise reports why a case was not judged.
+func eval(k Case) (fail *engine.Failure, premise string) {
+	src := []byte(k.Src)
+	if k.File != "" {
+		b, err := os.ReadFile(k.File)
+		if err != nil {
+			return nil, "excluded_unreadable"
+		}
+		src = b
+	}
+	gf, fs, err := parseGo(src)
+	if err != nil {
+		return nil, "excluded_go_parser_rejects"
+	}
+	if hasDollarString(src) {
+		return nil, "excluded_dollar_in_string_literal"
+	}
+	if k.File == "" && k.Variant == "" {
+		if err := typeCheck(gf, fs); err != nil {
+			if os.Getenv("C14_DEBUG") != "" {
+				fmt.Fprintf(os.Stderr, "TYPECHECK %s: %v\n%s\n", k.Feat, err, k.Src)
+			}
+			return nil, "excluded_go_types_rejects"
+		}
+	}
+	return judge(src, gf, k), ""
+}
+
+// ---------------------------------------------------------------------------------------------
+// generated files
+
+func build(idx ...int) string {
+	var imps, tops, bodies []string
+	for _, i := range idx {
+		it := menu[i]
+		r := strings.NewReplacer("§", strconv.Itoa(i))
+		if it.Imp != "" {
+			imps = append(imps, r.Replace(it.Imp))
+		}
+		if it.Top != "" {
+			tops = append(tops, r.Replace(it.Top))
+		}
+		if it.Body != "" {
+			bodies = append(bodies, r.Replace(it.Body))
+		}
+	}
+	var b strings.Builder
+	b.WriteString("package p\n\n")
+	for _, s := range imps {
+		b.WriteString(s + "\n")
+	}
+	for _, s := range tops {
+		b.WriteString("\n" + s + "\n")
+	}
+	if len(bodies) > 0 {
+		b.WriteString("\nfunc body() {\n")
+		for _, s := range bodies {
+			for _, l := range strings.Split(s, "\n") {
+				b.WriteString("\t" + l + "\n")
+			}
+		}
+		b.WriteString("}\n")
+	}
+	return b.String()
+}
+
+type tokInfo struct {
+	off, end int
+	tok      gotoken.Token
+	auto     bool // automatically inserted semicolon
+}
+
+func scanGo(src []byte) []tokInfo {
+	var s goscanner.Scanner
+	fs := gotoken.NewFileSet()
+	file := fs.AddFile("", -1, len(src))
+	s.Init(file, src, nil, 0)
+	var out []tokInfo
+	for {
+		pos, tok, lit := s.Scan()
+		if tok == gotoken.EOF {
+			return out
+		}
+		off := file.Offset(pos)
+		ti := tokInfo{off: off, tok: tok}
+		switch {
+		case tok == gotoken.SEMICOLON && lit != ";":
+			ti.auto = true
+			ti.end = off
+		case lit != "":
+			ti.end = off + len(lit)
+		default:
+			ti.end = off + len(tok.String())
+		}
+		out = append(out, ti)
+	}
+}
+
+func endsLine(t gotoken.Token) bool {
+	switch t {
+	case gotoken.IDENT, gotoken.INT, gotoken.FLOAT, gotoken.IMAG, gotoken.CHAR, gotoken.STRING, gotoken.BREAK, gotoken.CONTINUE,
+		gotoken.FALLTHROUGH, gotoken.RETURN, gotoken.INC, gotoken.DEC, gotoken.RPAREN, gotoken.RBRACK, gotoken.RBRACE:
+		return true
+	}
+	return false
+}
+
+func tokClass(t gotoken.Token) string {
+	if t.IsLiteral() {
+		return t.String()
+	}
+	return "'" + t.String() + "'"
+}
+
+type variant struct {
+	class string
+	src   string
+}
+
+// variants enumerates the whitespace variants of src; only those with the identical go/ast tree are kept by the caller.
+func variants(src []byte) []variant {
+	toks := scanGo(src)
+	s := string(src)
+	out := []variant{{"crlf-line-ends", strings.ReplaceAll(s, "\n", "\r\n")}, {"byte-order-mark", "\xef\xbb\xbf" + s},
+		{"no-final-newline", strings.TrimRight(s, "\n")}, {"tabs-as-blanks", strings.ReplaceAll(s, "\t", " ")}}
+	for i, t := range toks {
+		if t.auto {
+			continue
+		}
+		// newline after a token that does not end a line
+		if !endsLine(t.tok) && t.end < len(s) && s[t.end] != '\n' {
+			out = append(out, variant{"newline-after:" + tokClass(t.tok), s[:t.end] + "\n" + s[t.end:]})
+		}
+		if i+1 < len(toks) && !toks[i+1].auto {
+			n := toks[i+1]
+			between := s[t.end:n.off]
+			switch {
+			case between == "":
+				out = append(out, variant{"blank-before:" + tokClass(n.tok), s[:t.end] + " " + s[n.off:]})
+			case strings.Trim(between, " \t") == "":
+				out = append(out, variant{"no-blank-after:" + tokClass(t.tok), s[:t.end] + s[n.off:]})
+			}
+		}
+	}
+	return out
+}
+
+func sameGoTree(a, b *goast.File) bool {
+	return cmp(reflect.ValueOf(a), reflect.ValueOf(b), "File", "", 0) == nil
+}
+
 func main() {
-	pairs := [][2]any{
-		{ast.Field{}, goast.Field{}}, {ast.FieldList{}, goast.FieldList{}}, {ast.BadExpr{}, goast.BadExpr{}}, {ast.Ident{}, goast.Ident{}},
-		{ast.Ellipsis{}, goast.Ellipsis{}}, {ast.BasicLit{}, goast.BasicLit{}}, {ast.FuncLit{}, goast.FuncLit{}}, {ast.CompositeLit{}, goast.CompositeLit{}},
-		{ast.ParenExpr{}, goast.ParenExpr{}}, {ast.SelectorExpr{}, goast.SelectorExpr{}}, {ast.IndexExpr{}, goast.IndexExpr{}}, {ast.IndexListExpr{}, goast.IndexListExpr{}},
-		{ast.SliceExpr{}, goast.SliceExpr{}}, {ast.TypeAssertExpr{}, goast.TypeAssertExpr{}}, {ast.CallExpr{}, goast.CallExpr{}}, {ast.StarExpr{}, goast.StarExpr{}},
-		{ast.UnaryExpr{}, goast.UnaryExpr{}}, {ast.BinaryExpr{}, goast.BinaryExpr{}}, {ast.KeyValueExpr{}, goast.KeyValueExpr{}},
-		{ast.ArrayType{}, goast.ArrayType{}}, {ast.StructType{}, goast.StructType{}}, {ast.FuncType{}, goast.FuncType{}}, {ast.InterfaceType{}, goast.InterfaceType{}},
-		{ast.MapType{}, goast.MapType{}}, {ast.ChanType{}, goast.ChanType{}},
-		{ast.BadStmt{}, goast.BadStmt{}}, {ast.DeclStmt{}, goast.DeclStmt{}}, {ast.EmptyStmt{}, goast.EmptyStmt{}}, {ast.LabeledStmt{}, goast.LabeledStmt{}},
-		{ast.ExprStmt{}, goast.ExprStmt{}}, {ast.SendStmt{}, goast.SendStmt{}}, {ast.IncDecStmt{}, goast.IncDecStmt{}}, {ast.AssignStmt{}, goast.AssignStmt{}},
-		{ast.GoStmt{}, goast.GoStmt{}}, {ast.DeferStmt{}, goast.DeferStmt{}}, {ast.ReturnStmt{}, goast.ReturnStmt{}}, {ast.BranchStmt{}, goast.BranchStmt{}},
-		{ast.BlockStmt{}, goast.BlockStmt{}}, {ast.IfStmt{}, goast.IfStmt{}}, {ast.CaseClause{}, goast.CaseClause{}}, {ast.SwitchStmt{}, goast.SwitchStmt{}},
-		{ast.TypeSwitchStmt{}, goast.TypeSwitchStmt{}}, {ast.CommClause{}, goast.CommClause{}}, {ast.SelectStmt{}, goast.SelectStmt{}}, {ast.ForStmt{}, goast.ForStmt{}},
-		{ast.RangeStmt{}, goast.RangeStmt{}}, {ast.ImportSpec{}, goast.ImportSpec{}}, {ast.ValueSpec{}, goast.ValueSpec{}}, {ast.TypeSpec{}, goast.TypeSpec{}},
-		{ast.BadDecl{}, goast.BadDecl{}}, {ast.GenDecl{}, goast.GenDecl{}}, {ast.FuncDecl{}, goast.FuncDecl{}}, {ast.File{}, goast.File{}},
+	c := engine.New("C14", "exploration")
+	if c.IsReplay() {
+		var k Case
+		c.LoadReplay(&k)
+		f, _ := eval(k)
+		c.ReplayResult(f)
 	}
-	for _, p := range pairs {
-		x, g := reflect.TypeOf(p[0]), reflect.TypeOf(p[1])
-		xf, gf := map[string]string{}, map[string]string{}
-		for i := 0; i < x.NumField(); i++ {
-			xf[x.Field(i).Name] = x.Field(i).Type.String()
+	npair := 40
+	if c.Thorough() {
+		npair = len(menu)
+	}
+	if npair > len(menu) {
+		npair = len(menu)
+	}
+	run := func(k Case) (*engine.Failure, bool) {
+		c.Eval(1)
+		f, premise := eval(k)
+		if premise != "" {
+			c.Hist(premise, 1)
+			return nil, false
 		}
-		for i := 0; i < g.NumField(); i++ {
-			gf[g.Field(i).Name] = g.Field(i).Type.String()
+		return f, true
+	}
+	// (2a) singles
+	singleFail := make([]*engine.Failure, len(menu))
+	nVariants := 0
+	for i, it := range menu {
+		src := build(i)
+		k := Case{Src: src, Feat: it.Feat}
+		f, judged := run(k)
+		if !judged {
+			c.Violate(k, &engine.Failure{Key: "harness:menu-item-not-valid-go:" + it.Feat, What: "menu item is not accepted by go/parser + go/types (harness defect)", Detail: src})
+			continue
 		}
-		for n, t := range xf {
-			if _, ok := gf[n]; !ok {
-				fmt.Printf("%s: xgo-only %s %s\n", x.Name(), n, t)
+		c.Nontrivial(src)
+		c.Hist("generated_single", 1)
+		if i%11 == 3 {
+			c.Sample(k)
+		}
+		if f != nil {
+			singleFail[i] = f
+			c.Hist("single_fails", 1)
+			c.Violate(k, f)
+			continue // variants of a failing item would repeat the same defect
+		}
+		// (2b) whitespace variants
+		gf, _, _ := parseGo([]byte(src))
+		for _, v := range variants([]byte(src)) {
+			vf, _, err := parseGo([]byte(v.src))
+			if err != nil || !sameGoTree(vf, gf) {
+				c.Hist("variant_discarded_changes_go_tree", 1)
+				continue
+			}
+			vk := Case{Src: v.src, Feat: it.Feat, Variant: v.class}
+			f, judged := run(vk)
+			if !judged {
+				continue
+			}
+			nVariants++
+			c.Nontrivial(v.src)
+			c.Hist("generated_ws_variant", 1)
+			if f != nil {
+				c.Hist("ws_variant_fails", 1)
+				if os.Getenv("C14_DEBUG") != "" {
+					fmt.Fprintf(os.Stderr, "WSFAIL %s | %s | %s\n", f.Key, it.Feat, strings.SplitN(f.Detail, "\n", 2)[0])
+				}
+				c.Violate(vk, f)
 			}
 		}
-		for n, t := range gf {
-			if _, ok := xf[n]; !ok {
-				fmt.Printf("%s: go-only %s %s\n", x.Name(), n, t)
+	}
+	// (2c) ordered pairs
+	for i := 0; i < npair; i++ {
+		for j := 0; j < npair; j++ {
+			if i == j {
+				continue
 			}
+			src := build(i, j)
+			k := Case{Src: src, Feat: "pair:" + menu[i].Feat + "+" + menu[j].Feat}
+			f, judged := run(k)
+			if !judged {
+				continue
+			}
+			c.Nontrivial(src)
+			c.Hist("generated_pair", 1)
+			if f == nil {
+				continue
+			}
+			// a pair that contains a failing item shows that item's defect again
+			if sf := singleFail[i]; sf != nil {
+				f = sf
+			} else if sf := singleFail[j]; sf != nil {
+				f = sf
+			}
+			c.Hist("pair_fails", 1)
+			c.Violate(k, f)
 		}
 	}
+	// (1) repository corpus
+	names, _ := corpus.AllGo(400000)
+	for i, fn := range names {
+		k := Case{File: fn}
+		f, judged := run(k)
+		if !judged {
+			continue
+		}
+		c.Nontrivial(fn)
+		c.Hist("premise_parse_only", 1)
+		if i%97 == 5 {
+			c.Sample(k)
+		}
+		if f != nil {
+			c.Hist("corpus_fails", 1)
+			c.Violate(k, f)
+		}
+	}
+	c.Rule = fmt.Sprintf("(1) every .go file of the repository (<=400000 bytes) that go/parser accepts and that has no '$' in a string literal (premise: parse only); "+
+		"(2) a menu of %d self-contained Go feature items, each accepted by go/parser and go/types: every item alone, every whitespace variant of every item "+
+		"(newline after each token after which Go inserts no semicolon, one blank inserted at / all blanks removed from every token boundary; kept only when go/parser yields the identical tree), "+
+		"and every ordered pair of the first %d items in one file and one function body. Each source is parsed as a.go (ParseGoAsGoPlus|ParseComments), a.xgo (ParseComments) and a.xgo (mode 0). "+
+		"distinct_nontrivial = distinct judged source texts", len(menu), npair)
+	c.Assumptions = []string{
+		"same tree = same node type names, identifiers, literal kinds and values, operators/tokens, booleans, channel directions, child structure and order; positions, comments, objects/scopes are ignored, except the validity of CallExpr.Ellipsis, TypeSpec.Assign and GenDecl.Lparen",
+		"go/ast SendStmt.Value corresponds to XGo SendStmt.Values of length 1; XGo-only fields must be zero except BasicLit.Extra, File.{Code,ShadowEntry,NoPkgDecl,IsClass,IsProj,IsNormalGox}, FuncDecl.{Operator,Shadow,IsClass,Static}",
+		"documented deviation excluded and counted: any file with '$' inside a string literal (string interpolation)",
+		"repository files are not type-checked (premise_parse_only); generated files are type-checked with go/types and the source importer",
+	}
+	c.Extra["bound"] = map[string]any{"menu_items": len(menu), "pair_items": npair, "ws_variants": nVariants, "corpus_files": len(names)}
+	c.Finish()
 }
